@@ -17,8 +17,8 @@ from __future__ import annotations
 import ast
 
 from ..core import Ctx, key_of
-from ..model import AnchorMissing, norm, own_nodes
-from ..order import order_table
+from ..model import AnchorMissing, const_str, norm, own_nodes
+from ..order import local_resolver, order_table
 from .c07 import scan_rules, sort_rules
 
 META = {
@@ -30,6 +30,70 @@ META = {
                    " Also: truth table of the inheritance guard (provided or inherited), evaluation of any priority range guard at 1 / 500 / 1000, the default deadline of backward tasks being the declared project end, and the local-id identity census.",
     "assumptions": [],
 }
+
+
+def horizon_not_a_date_rule(ctx: Ctx, rid: str):
+    """The scheduling horizon (project 'end' once _extendProjectEndIfNeeded has moved it with the total effort) bounds the slot
+    walk but is never written into a task's start / end: a task added elsewhere would move that date.  Syntactic value closure
+    over the Project methods under Project.schedule, through local names and through parameters to their call sites."""
+    repo = ctx.repo
+    sched = repo.func("Project.schedule")
+    scope = [f for f in ctx.cg.reach([sched]) if f.cls is not None and f.cls.name == "Project"]
+    by_node = {f.node: f for f in repo.all_funcs()}
+
+    def is_horizon(e) -> bool:
+        t = norm(e).replace('"', "'")
+        return t in ("self['end']", "self.attributes['end']", "self.attributes.get('end')", "self.project['end']",
+                     "self.project.attributes['end']", "self.project.attributes.get('end')")
+
+    def closure(fn, e, seen, depth=0):
+        """horizon reads the value of e may carry (data only)"""
+        out = []
+        if depth > 6:
+            return out
+        res = local_resolver(fn.node)
+        for x in ast.walk(e):
+            if is_horizon(x):
+                out.append((fn, x))
+            elif isinstance(x, ast.Name) and isinstance(x.ctx, ast.Load) and (fn.key, x.id) not in seen:
+                seen.add((fn.key, x.id))
+                for v in res(x) or []:
+                    out += closure(fn, v, seen, depth + 1)
+                if x.id in fn.params:
+                    idx = fn.params.index(x.id)
+                    for caller in scope + [fn]:
+                        for c in own_nodes(caller):
+                            if isinstance(c, ast.Call) and ((isinstance(c.func, ast.Name) and c.func.id == fn.name) or
+                                                            (isinstance(c.func, ast.Attribute) and c.func.attr == fn.name and norm(c.func.value) == "self")):
+                                off = 1 if (fn.params and fn.params[0] == "self") else 0
+                                k = idx - off if isinstance(c.func, ast.Attribute) else idx
+                                args = list(c.args)
+                                if 0 <= k < len(args):
+                                    out += closure(caller, args[k], seen, depth + 1)
+                                for kw in c.keywords:
+                                    if kw.arg == x.id:
+                                        out += closure(caller, kw.value, seen, depth + 1)
+        return out
+    n = 0
+    for fn in sorted(scope, key=lambda f: f.key):
+        for w in own_nodes(fn):
+            if not (isinstance(w, ast.Assign) and len(w.targets) == 1 and isinstance(w.targets[0], ast.Subscript)):
+                continue
+            sl = w.targets[0].slice
+            if not (isinstance(sl, ast.Tuple) and sl.elts and const_str(sl.elts[0]) in ("start", "end")):
+                continue
+            if norm(w.targets[0].value) in ("self", "self.attributes"):
+                continue
+            n += 1
+            hits = closure(fn, w.value, set())
+            ok = not hits
+            ctx.ob(rid, f"{fn.qual}: {norm(w)[:70]}", (fn, w), ok,
+                   "the date written comes from the task tree, not from the scheduling horizon" if ok else
+                   f"the date written can be {norm(hits[0][1])} (read in {hits[0][0].qual}): at that point the project end is the horizon that "
+                   "_extendProjectEndIfNeeded moves with the total effort, so adding a task elsewhere moves this task",
+                   key=key_of(rid, fn, w.targets[0], "horizon"))
+    if n < 4:
+        raise AnchorMissing(f"{n} writes of task start/end found in Project methods under schedule()")
 
 
 def run_extra(ctx: Ctx):
@@ -96,6 +160,7 @@ def run(ctx: Ctx):
                "the default deadline is the project end that _extendProjectEndIfNeeded moves with the total effort: adding a task that "
                "fits (own resource, lowest priority) shifts every backward-scheduled task of the project",
                key="R09.3|TaskScenario.schedule|default deadline")
+    horizon_not_a_date_rule(ctx, "R09.8")
     # ---------------------------------------------------------------- R09.4 inheritance is transitive
     # a container's priority reaches tasks nested more than one level down only if a value the parent itself inherited is
     # passed on: every guard of `my_attr.inherit(parent_attr.get())` accepts provided OR inherited parent values
